@@ -173,9 +173,10 @@ def covarianceMatrix (rvs : RVs α) : List (List α) := (calcCov rvs).2.1
 
 /-! ### join -/
 
-/-- `fill != 0`: every zero entry of the joined matrix becomes `fill`. -/
+/-- `fill != 0`: every zero entry **off the diagonal** of the joined matrix becomes `fill`
+    (`if row != col and M[row, col] == 0: M[row, col] = fill`). -/
 def fillMat (fill : α) (M : List (List α)) : List (List α) :=
-  M.map (·.map fun v => if v = 0 then fill else v)
+  M.zipIdx.map fun (row, i) => row.zipIdx.map fun (v, j) => if i ≠ j ∧ v = 0 then fill else v
 
 /-- All `(row, col)` of `product(range(n), range(n))` in iteration order. -/
 def pairs (n : Nat) : List (Nat × Nat) :=
